@@ -189,7 +189,7 @@ def model_segments(ctx, variant, hist_abstract, hist_cells):
 def run(ctx):
     t0 = time.time()
     quick = ctx.quick()
-    nh = int(os.environ.get("C17_HISTORIES", 40 if quick else 800))
+    nh = int(os.environ.get("C17_HISTORIES", 24 if quick else 800))
     scratch = tempfile.mkdtemp(prefix="c17.", dir=ctx.workdir)
     try:
         _run(ctx, nh, scratch)
@@ -273,7 +273,7 @@ def _run(ctx, nh, scratch):
                         ("argument-modified-by-earlier-call:" + modified) if modified else api)
                     extra = dict(comparison="fresh interpreter running only the calls that build this call's argument objects, then this call",
                                  cell_changed_earlier_in_this_history=leaked, argument_modified_earlier_in_this_history=modified)
-                    if sig not in minimised:
+                    if sig not in minimised and len(minimised) < 2:
                         minimised.add(sig)
                         small = minimise(hg.calls[:k + 1], scratch, rebuilt=True)
                         extra["minimised_history"] = [describe(c) for c in small]
@@ -287,7 +287,7 @@ def _run(ctx, nh, scratch):
                 sig = ("C17:state-leak-through:%s:result-differs-from-fresh-interpreter" % leaked) if leaked else (
                     "C17:%s:result-differs-from-fresh-interpreter" % api)
                 extra = dict(difference=what, cell_changed_earlier_in_this_history=leaked)
-                if sig not in minimised:
+                if sig not in minimised and len(minimised) < 2:
                     minimised.add(sig)
                     small = minimise(hg.calls[:k + 1], scratch)
                     extra["minimised_history"] = [describe(c) for c in small]
@@ -373,7 +373,7 @@ def differs_at_end(calls, scratch, tag, rebuilt=False):
     return fr is not None and fr != last[0]["res"]
 
 
-def minimise(calls, scratch, budget=45, rebuilt=False):
+def minimise(calls, scratch, budget=22, rebuilt=False):
     """greedy removal of earlier calls while the last call still differs from its fresh run"""
     cur = list(calls)
     j = len(cur) - 2
